@@ -245,7 +245,14 @@ fn check_join(f: &str, a: &Type, b: &Type, p: &Type, q: &Type, ia: usize, ib: us
         return;
     }
     if !le(a, p) || !le(b, p) {
-        fail("join_upper_bound", "result below an operand", format!("result {} is not an upper bound of both operands", show_type(p)));
+        // a result of too low a kind (float for a complex operand) is another defect than a
+        // result of the right kind whose width is too small: the locus keeps them apart
+        let kind_ok = match (numeric(a), numeric(b), numeric(p)) {
+            (Some((ka, _)), Some((kb, _)), Some((kp, _))) => kind_le(ka, kp) && kind_le(kb, kp),
+            _ => false,
+        };
+        let locus = if kind_ok { "result below an operand in width" } else { "result below an operand in kind" };
+        fail("join_upper_bound", locus, format!("result {} is not an upper bound of both operands", show_type(p)));
     }
     if p.is_const() && !(a.is_const() && b.is_const()) {
         fail("join_const", "const result from a non-const operand", format!("result {} is const although an operand is not", show_type(p)));
@@ -291,10 +298,6 @@ impl Pairs {
             check_join("promote_ne", a, b, &pn, &qn, ia, ib, ctx);
         }
         for (k, (name, _)) in OPS.iter().enumerate() {
-            let numeric_pair = numeric(a).is_some() && numeric(b).is_some();
-            if *name == "Div" && !numeric_pair {
-                continue; // division of non-numeric operands is outside the statement
-            }
             check_join(&format!("implicit({})", name), a, b, &imp[k].0, &imp[k].1, ia, ib, ctx);
         }
         // literal castability
